@@ -140,7 +140,7 @@ CHECKS = {
                      "bad VP/VC signatures, revoked/expired credential, scope, missing parameters; plus client_id/PKCE/replay defects on real authorization-code requests captured from the OpenID4VP flow. "
                      "Oracle: token issued iff defect set empty; no access-token store write on refusal (hook); introspection (standard+extended) equals issuance facts, inactive for never-issued/aged tokens; "
                      "hostile definition field ids never override response members.",
-                note="Presentations are harness-signed jwt_vp (JSON-LD VP only via the node's own client); OpenID4VP wallet-response defects not generated; expiry by ageing the stored token, not by waiting."),
+                note="Presentations are harness-signed jwt_vp (JSON-LD VP only via the node's own client); in the OpenID4VP leg policies with both organisation and user definitions, descriptor format mismatches and the error-response branch are not generated; expiry by ageing the stored token, not by waiting."),
     "C05": dict(cat="exploration", sec="5 C05",
                 tech="runtime monitor: hook-steered interleavings of session-store operations over real OAuth flows on a full in-process node; at-most-once history oracle; race detector",
                 text="A complete in-process node runs the real RFC021 s2s and OpenID4VP authorization-code flows through a harness-owned proxy that withholds the redeeming hop, "
@@ -161,7 +161,7 @@ CHECKS = {
 # Extensions made after independently seeded changes (DESIGN.md §12.20-§12.24, §13); appended to the level text.
 ADDENDA = {
     "C01": "Extended: hosted did:web issuers; key-history grid on a second node (did:nuts + did:web; v1 key1, v2 +key2, v3 -key1, deactivated) at validation times inside the recorded version intervals; credentialStatus arrays over an alphabet of entries (unusable lists, other purposes, unknown types); re-verification after list re-issue and node restart.",
-    "C02": "Extended: late replay in the skew tail, scope lists, backdated over-long validity, audiences that extend/truncate/re-case this server's identifier, two-presentation assertions (accepted controls, 10 defects on the mapped or the other presentation, both orders).",
+    "C02": "Extended: late replay in the skew tail, scope lists, backdated over-long validity, audiences that extend/truncate/re-case this server's identifier, two-presentation assertions (accepted controls, 10 defects on the mapped or the other presentation, both orders). Round 5: OpenID4VP wallet-response leg - the real authorization-code flow runs until the node's own wallet posts to the verifier's direct_post endpoint, the proxy withholds that post and the harness plays the wallet (did:jwk holders, jwt_vp and ldp_vp over the session's real nonce/state): 3 controls and 72 distinct single defects (nonce/state of another, finished or unknown session, audience, signer != subject, non-matching or revoked/expired credential, forged/permuted/empty descriptor map, tampered signatures, other subject's endpoint, second use, two-presentation arrays in both orders), one fresh session each; a defective response must never lead to a token at the token endpoint or a token-store write.",
     "C03": "Extended: private half of every held key family x 5 header forms x 12 signing entry points; kid life-cycle programs (create, warm up, re-point by Link/New/Delete also inside committed and rolled-back SQL transactions, use again) on two key stores with a harness-kept designation table.",
     "C04": "Extended: hostile path-parameter values on parameterised routes in every tier, deferred calibration judgement.",
     "C05": "Extended: store-fault enumeration below the session database (every backend operation of a presentation lost or answered with an error, single and outage-spanning, also steered two-actor), volume phase (1 000 ... 262 144 live entries between use and replay).",
